@@ -12,7 +12,8 @@ CLAIM = dict(
     technique="Lean 4 proof that the phase products used at the corners are the character of the corner k-point "
               "(multiplicativity of an abstract exponential on any additive group of k-vectors), per spin block with its own "
               "R list, on top of the C02 box theorem + exact correspondence of the corner Hamiltonians over Gaussian rationals "
-              "+ oracle comparing E_K_corners_* of every system kind with direct diagonalisation at the corner k-points",
+              "+ oracle comparing E_K_corners_* and the (eCenter, eCorners) that Data_K.tetraWeights hands to the tetrahedron method, for "
+              "every system kind, with direct diagonalisation at the corner / centre k-points",
     text="Theorems: expdK[ix,:,0]*expdK[iy,:,1]*expdK[iz,:,2] = chi_v(R) with v = ((ix,iy,iz)-1/2)*dK for every R, every "
          "half step and every multiplicative exponential; since Ham_R of the Data_K object already carries chi_K, the matrix "
          "that is diagonalised at a corner is, for every FFT box size (collisions included) and under the inverse-DFT "
@@ -36,7 +37,8 @@ TRUSTED = [
     "hypothesis IDFTContract (see C02)",
     "modelled: phonon_freq_from_square (exact on signed perfect squares), Data_K_k corner evaluation incl. SystemKP.k_to_1BZ "
     "folding and the reduction of the FFT k-points modulo 1 (exact on a one-band quadratic k.p model)",
-    "not modelled (oracle only): eigvalsh, select_bands / Emin / Emax, K-point refinement (divide), GridTetra construction",
+    "not modelled (oracle only): Data_K.tetraWeights (the consumer: eCorners / eCenter in the same units, phonon map applied "
+    "exactly once), eigvalsh, select_bands / Emin / Emax, K-point refinement (divide), GridTetra construction",
 ]
 RULE = ("k.p models in cubic (kmax), anisotropic orthorhombic, hexagonal and oblique cells given through recip_lattice= / "
         "real_lattice=, Cartesian and reduced k convention, 1-3 bands; "
@@ -579,6 +581,28 @@ def oracle(ctx, scale):
                 if err > tol:
                     ctx.fail(f"corner energies differ from direct evaluation at the corner k-points by {err:.3e} "
                              f"(allowed {tol:.1e})", dict(case, err=err))
+            # the CONSUMER of the corner energies: Data_K.tetraWeights hands (eCenter, eCorners) to the tetrahedron method;
+            # what is used there must be the energies at the corner k-points and at the centres, in the same units
+            with quiet():
+                d2 = cls(s, dK=Kp.Kp_fullBZ, grid=grid, Kpoint=Kp, **params)
+                tw = d2.tetraWeights
+            cref = np.array([freq(np.linalg.eigvalsh(direct_H(s, k)), kind == "phonon") for k in ks])
+            selK2 = np.asarray(d2.select_K, dtype=bool)
+            selB2 = np.asarray(d2.select_B, dtype=bool)
+            want_c = ref[selK2][..., selB2]
+            want_0 = cref[selK2][:, selB2]
+            used_c, used_0 = np.array(tw.eCorners), np.array(tw.eCenter)
+            if used_c.shape != want_c.shape or used_0.shape != want_0.shape:
+                ctx.fail(f"tetraWeights: eCorners/eCenter have shapes {used_c.shape}/{used_0.shape}, direct evaluation "
+                         f"{want_c.shape}/{want_0.shape}", case)
+            elif used_c.size:
+                e1, e0 = np.abs(used_c - want_c).max(), np.abs(used_0 - want_0).max()
+                if e1 > tol:
+                    ctx.fail(f"the corner energies USED by the tetrahedron method (Data_K.tetraWeights.eCorners) differ from direct "
+                             f"evaluation at the corner k-points by {e1:.3e} (allowed {tol:.1e})", dict(case, err=e1))
+                if e0 > tol:
+                    ctx.fail(f"the centre energies used by the tetrahedron method (tetraWeights.eCenter) differ from direct "
+                             f"evaluation by {e0:.3e} (allowed {tol:.1e})", dict(case, err=e0))
             if window is None:
                 if Etest.shape != ref.shape or np.abs(Etest - ref).max() > tol:
                     ctx.fail("the library's own reference method E_K_corners_*_test differs from direct evaluation "
